@@ -38,6 +38,54 @@ def dynAdd {σ} (d : Dyn σ) (t : Rat) (s : σ) : Dyn σ :=
 /-- the (time, state) pairs of a dynamics, in stored order. -/
 def Dyn.pairs {σ} (d : Dyn σ) : List (Rat × σ) := d.times.zip d.states
 
+/-! ### reading a dynamics between adds (`Dynamics.times` / `Dynamics.states`) -/
+
+/-- how a read-only property produces its array: from the live list on every read, or from an
+    array built once and kept -/
+inductive ReadKind where
+  | live | memo
+  deriving DecidableEq, Repr
+
+/-- a dynamics together with whatever a `memo` getter has kept -/
+structure DynView (σ : Type) where
+  dyn : Dyn σ
+  keptTimes : Option (List Rat)
+  keptStates : Option (List σ)
+
+def DynView.empty {σ} : DynView σ := ⟨Dyn.empty, none, none⟩
+
+inductive ViewOp (σ : Type) where
+  | add (t : Rat) (x : σ)
+  | readTimes
+  | readStates
+
+/-- one operation: the new view and what a read returned (`none` for an add) -/
+def DynView.step {σ} (kt ks : ReadKind) (v : DynView σ) :
+    ViewOp σ → DynView σ × Option (List Rat ⊕ List σ)
+  | .add t x => ({ v with dyn := dynAdd v.dyn t x }, none)
+  | .readTimes =>
+    match kt, v.keptTimes with
+    | .live, _ => (v, some (.inl v.dyn.times))
+    | .memo, some c => (v, some (.inl c))
+    | .memo, none => ({ v with keptTimes := some v.dyn.times }, some (.inl v.dyn.times))
+  | .readStates =>
+    match ks, v.keptStates with
+    | .live, _ => (v, some (.inr v.dyn.states))
+    | .memo, some c => (v, some (.inr c))
+    | .memo, none => ({ v with keptStates := some v.dyn.states }, some (.inr v.dyn.states))
+
+/-- run a history, collecting what every read returned together with the dynamics at that
+    moment -/
+def DynView.run {σ} (kt ks : ReadKind) :
+    DynView σ → List (ViewOp σ) → List ((List Rat ⊕ List σ) × Dyn σ)
+  | _, [] => []
+  | v, op :: ops =>
+    let (v', out) := v.step kt ks op
+    match out with
+    | some r => (r, v'.dyn) :: DynView.run kt ks v' ops
+    | none => DynView.run kt ks v' ops
+
+
 /-- State of a continuing method object: backend step (`none` before the first
     compute) and the dynamics recorded so far.  Recorded "states" are abstract
     step numbers: which backend state was stored under which time. -/
